@@ -52,6 +52,11 @@ def _pj(x):
     return ".?"
 
 
+STD_ENUMS = {
+    "core::option::Option": {"variants": [{"name": "None", "idx": 0, "discr": "0", "fields": []}, {"name": "Some", "idx": 1, "discr": "1", "fields": [{"name": "0"}]}]},
+    "core::result::Result": {"variants": [{"name": "Ok", "idx": 0, "discr": "0", "fields": [{"name": "0"}]}, {"name": "Err", "idx": 1, "discr": "1", "fields": [{"name": "0"}]}]},
+}
+
 AST = None          # syntax-tree index (set by the check driver): values of named constant structs
 
 EMPTY = (2 ** 300, -2 ** 300)          # the interval of a value that cannot exist on this path
@@ -367,13 +372,13 @@ class Intervals:
                         # payload of an enum variant, as read back through `(x as Variant).i`
                         env[("p", "%d@%d.%d" % (p["l"], rv["variant"], i))] = v
             if rv.get("agg") == "adt" and rv.get("variant") is not None and not p["p"]:
-                en0 = self.mir.enums.get(rv.get("adt") or "")
+                en0 = self.mir.enums.get(rv.get("adt") or "") or STD_ENUMS.get(rv.get("adt") or "")
                 dv = next((int(w["discr"]) for w in (en0 or {}).get("variants", []) if w["idx"] == rv["variant"]), None)
                 if dv is not None and dv < 2 ** 63:
                     env[("d", p["l"])] = (dv, dv)          # discriminant of a value built as this variant
                 # the payloads of the other variants do not exist in this value: the empty interval (neutral at joins), so that
                 # `if c { E::A(1) } else { E::B(2) }` keeps what is known about either payload
-                en = self.mir.enums.get(rv.get("adt") or "")
+                en = self.mir.enums.get(rv.get("adt") or "") or STD_ENUMS.get(rv.get("adt") or "")
                 for w in (en or {}).get("variants", []):
                     if w["idx"] != rv["variant"]:
                         for i in range(len(w.get("fields") or [])):
@@ -431,7 +436,27 @@ class Intervals:
             if not dest["p"]:
                 env[("a", k)] = sym
             return
-        if name in self.summaries:
+        if re.search(r"ops::range::Range(Inclusive)?::<Idx>::contains$", d or "") and len(t["args"]) == 2 and not dest["p"]:
+            # the bool result relates the tested local to the constant bounds of the range
+            try:
+                ro = self.b.origin(t["args"][0])
+                while ro[0] in ("ref", "deref"):
+                    ro = ro[1]
+                lo = hi = None
+                if ro[0] == "call" and (ro[1] or "").endswith("RangeInclusive::<Idx>::new") and all(x[0] == "const" and x[1] is not None for x in ro[3]):
+                    lo, hi = ro[3][0][1], ro[3][1][1]
+                elif ro[0] == "agg" and "ops::range::Range" in str(ro[1]) and str(ro[1][1]).endswith("::Range") and all(x[0] == "const" and x[1] is not None for x in ro[2]):
+                    lo, hi = ro[2][0][1], ro[2][1][1] - 1
+                base = self.ref_base(t["args"][1])
+                for _ in range(3):
+                    if base is not None and ("r", base) in env:
+                        base = env[("r", base)]          # `&&x` handed to contains: the local behind the references
+                if lo is not None and base is not None:
+                    self.relf[k] = ("In", ("l", base), (lo, hi), None)
+            except Exception:
+                pass
+            iv = (0, 1)
+        elif name in self.summaries:
             iv = self.summaries[name](self, env, t)
         elif re.search(r"convert::num::<impl core::convert::From<(u8|u16|u32|u64|usize|i8|i16|i32|i64)> for [ui](8|16|32|64|128|size)>::from$", name) and len(t["args"]) == 1:
             # lossless integer widening keeps the operand's interval
@@ -556,6 +581,10 @@ class Intervals:
         return env.get(k)
 
     def apply_rel(self, env, rel, truth):
+        if rel[0] == "In":
+            # `(lo..=hi).contains(&x)` / `(lo..hi).contains(&x)`: true puts x inside the constant range
+            _op, a, (lo, hi), _ty = rel
+            return self.refine(env, a, lo=lo, hi=hi) if truth else True
         op, a, b, lty = rel
         if not truth:
             op = {"Lt": "Ge", "Le": "Gt", "Gt": "Le", "Ge": "Lt", "Eq": "Ne", "Ne": "Eq"}[op]
